@@ -1,5 +1,6 @@
 import ZixModel.Spec.Env
 import ZixModel.Lemmas.Env
+import ZixModel.Generated.CharClass
 /-! # C16 — environment expansion substitutes exactly the references and copies the rest
 
 Property theorems only; helper lemmas live in `ZixModel/Lemmas/Env.lean`.
@@ -173,6 +174,23 @@ theorem findEnv_first (pre post : List (List Nat)) (name v : List Nat) (hname : 
     have he := hpre e (by simp)
     simp only [List.cons_append, findEnv, he, if_false]
     exact ih (fun e' he' => hpre e' (by simp [he']))
+
+/-! ## the character classes are the code's (regenerated on every run)
+
+`Generated/CharClass.lean` lists, for each of the 256 byte values, whether `is_var_name_char` /
+`is_path_delim` of the current source accept it (obtained by compiling the source and calling
+them); the model's predicates are the same sets, for every byte — not only for the bytes a
+generated test string happened to contain. -/
+
+theorem isVarChar_is_the_codes (c : Nat) (h : c < 256) :
+    isVarChar c = Zix.Generated.varNameChars.contains c := by
+  have key : ∀ c ∈ List.range 256, isVarChar c = Zix.Generated.varNameChars.contains c := by decide +kernel
+  exact key c (List.mem_range.2 h)
+
+theorem isPathDelim_is_the_codes (c : Nat) (h : c < 256) :
+    isPathDelim c = Zix.Generated.pathDelims.contains c := by
+  have key : ∀ c ∈ List.range 256, isPathDelim c = Zix.Generated.pathDelims.contains c := by decide +kernel
+  exact key c (List.mem_range.2 h)
 
 /-! ## non-vacuity -/
 -- "a$X:~/b$Y" with X=1, HOME=/h, Y unset
